@@ -155,7 +155,9 @@ PROPS = {
                "no iterator output that may carry an error is dropped on its way up through adaptors and consumers "
                "(R-ITER-ERR). the multi-step replace-at-index of a map entry cannot be interrupted by an error exit (R-REPLACE-ATOMIC). break / continue emit TryEnd for the try blocks they leave, the only way a catch point is removed (R-TRY-EXIT). a thrown value travels as an Error, never as its rendering (R-ERR-KIND). a failed overloaded operator is never replaced by the fallback's outcome unless it threw koto.unimplemented (R-ERR-SWALLOW). a conditional last catch block rethrows what it does not accept (R-CATCH-LAST). a frame discarded by the unwinder delivers no result to the surviving frame, so `v = f()` leaves v as it was when f throws (R-UNWIND-NO-RESULT). the error of a re-entrant call is never reduced to its discriminant and replaced (R-ERR-DISCARD). the compiler's active-try-block count, from which break / continue emit TryEnd, mirrors the registered catch points at every recursive compile call (R-TRY-COUNT). Not decided: finally on every path, handler scoping across break/continue/return "
                "(emitted control flow), variable state after a catch beyond the result register of the abandoned call.",
-        technique="MIR path rules (sibling protocol at nested entries, must-pass-through) + linear-value evidence rule",
+        technique="MIR path rules (sibling protocol at nested entries, must-pass-through) + linear-value evidence rule; call-graph "
+                  "reachability from the unwinder to register writes; def-use census of the Result locals of re-entrant calls; "
+                  "typestate walk (registered catch point x counted try block) at recursive compile calls",
     ),
     "C06": dict(
         rules=[R("borrow", "rule_borrow"), R("arith", "rule_arith"), R("arith", "rule_rem_zero"), R("arith", "rule_accum"),
@@ -201,7 +203,8 @@ PROPS = {
                "can shift the source positions of everything compiled after it (R-SPAN); the position the VM records for diagnostics is "
                "refreshed on every entry of the interpreter loop and after every instruction (R-IP-SYNC), and put back by pop_frame itself for whoever pops a frame (R-FRAME-SAVE-RESTORE). Not decided: which "
                "line a fault maps to, trace order, excerpt rendering.",
-        technique="path-sensitive typestate (counter) over MIR with discriminant correlation",
+        technique="path-sensitive typestate (counter) over MIR with discriminant correlation; save/restore field agreement of "
+                  "sibling methods (push_frame / pop_frame)",
     ),
     "C05": dict(
         rules=[R("enc", "rule_enc"), R("enc", "rule_handlers"), R("enc", "rule_enc_flags"),
@@ -233,14 +236,16 @@ PROPS = {
                "(R-FRAMES); builder stacks are restored at catch (R-CATCH-RESTORE); a failed import removes its cache "
                "placeholder and restores exports (R-IMPORT); execution_state is never left Active (R-EXEC-STATE). "
                "every error returned by the interpreter loop has passed the unwinder (R-UNWIND-ALL). an error that leaves the interpreter loop takes its unfinished sequence / string builders with it (R-BUILDERS-ON-ERROR). Not decided: behavioural equivalence with a fresh instance over arbitrary histories.",
-        technique="MIR path rules (pairing on all exits) over a rustc_private fact dump",
+        technique="MIR path rules (pairing on all exits) over a rustc_private fact dump; def-use origin of truncation bases; "
+                  "call-graph scoped write census (module cache writes inside the module body)",
     ),
     "C08": dict(
         rules=[R("vm", "rule_timeout_poll"), R("vm", "rule_timeout_nocatch"), R("vm", "rule_unwind_all"), R("vm", "rule_err_kind"), R("vm", "rule_err_swallow"), R("errdiscard", "rule_err_discard")],
         clause="The deadline poll dominates every instruction dispatch in the interpreter loop (R-TIMEOUT-POLL) and a "
                "timeout is never offered to a catch handler, including timeouts returned by nested interpreter entries "
                "(R-TIMEOUT-NOCATCH). a timeout leaves the interpreter loop through the unwinder like every other error (R-UNWIND-ALL). errors keep their kind when they are passed on: no Error is rendered to text and re-wrapped (R-ERR-KIND). after a nested entry has failed only a thrown koto.unimplemented can lead on to a fallback, every other error is returned (R-ERR-SWALLOW). no error of a re-entrant call is replaced by an error of the caller's own, which would make a timeout catchable (R-ERR-DISCARD). Not decided: time bounds/slack, adaptive poll interval, native loops.",
-        technique="MIR dominance / must-pass-through and constant-argument analysis",
+        technique="MIR dominance / must-pass-through and constant-argument analysis (resolved loop function, caller-side "
+                  "arming of a deadline parameter); def-use census of the Result locals of re-entrant calls",
     ),
     "C18": dict(
         rules=[R("vm", "rule_import"), R("vm", "rule_import_once"), R("vm", "rule_resolve_order"),
